@@ -207,13 +207,7 @@ def body(PROP, plan):
         def probes():
             try:
                 for cfg, inv in p.get("probes", []):
-                    rc, out, wall = V.run_tlc(SPEC, cfg, sc, workers=4, timeout=1500)
-                    st = V.parse_tlc_stats(out)
-                    hit = ("Invariant %s is violated" % inv) in out
-                    if not hit:
-                        raise V.Infra("model probe %s: expected TLC to report a violation of %s (the recorded finding), got:\n%s" % (cfg, inv, out[-1500:]))
-                    V.log("[tlc] %s/%s (faithful model of a recorded finding): %s violated as expected, %d states, %.1fs" % (SPEC, cfg, inv, st["distinct"], wall))
-                    probe_out.append(dict(cfg=cfg, violated=inv, states=st["distinct"], wall_s=round(wall, 1)))
+                    probe_out.append(V.model_counterexample(SPEC, cfg, inv, sc, workers=4, timeout=1500))
             except Exception as e:  # noqa
                 mc_err.append(e)
 
